@@ -202,8 +202,11 @@ def run(repo, rep):
                 rep.ok('C03.c', 'engine:' + i.construct, i.where, i.detail)
             elif i.verdict == 'VIOLATED':
                 rep.fail('C03.c', 'engine:' + i.construct, i.where, 'line indentation is no longer the sum of the enclosing nest amounts: ' + i.detail)
-    from . import docmodel
+    from . import docmodel, strmodel
     n += docmodel.run(repo, rep, {'normalisation': 'C03.c', 'constructors': 'C03.c'})
+    # a string laid out in pieces (narrow widths) is the same string: pieces concatenate to the value and each piece is escaped
+    # for the quote chosen for the whole value (string model)
+    n += strmodel.run(repo, rep, {'pieces': 'C03.b', 'escaping': 'C03.b'})
     rep.floor('C03.c', n, 14)
 
     # ---------------------------------------------------------------- C03.d one set of settings for every variant of a value
